@@ -55,7 +55,8 @@ BASE_PARTS = 8
 # values that select nothing / everything (or are answered 400) in every state, by construction
 BY_CONSTRUCTION = frozenset([
     'member_of=!UNK', 'name=unknown', 'name=empty', 'name=padded-left', 'name=padded-right', 'uuid=unknown', 'in_tree=unknown', 'member_of=UNK',
-    'member_of=A&!A', 'required=unknown', 'required=in:T,unknown', 'required=!unknown',
+    'member_of=A&!A', 'required=unknown', 'required=in:T,unknown', 'required=!unknown', 'required=T,unknown',
+    'required=!T,!unknown',
     'resources=unknown', 'resources=c:1,unknown'])
 
 
@@ -248,6 +249,9 @@ def menus(desc, fp, fc):
         rq('unknown', (1, 18), [['list', [NOPE_TRAIT], []]], True),
         rq('in:T,unknown', (1, 39), [['in', [T, NOPE_TRAIT]]], False, False),
         rq('!unknown', (1, 22), [['list', [], [NOPE_TRAIT]]], False, False),
+        # one unknown name among known ones is as unknown as a lone one
+        rq('T,unknown', (1, 18), [['list', [T, NOPE_TRAIT], []]], False, False),
+        rq('!T,!unknown', (1, 22), [['list', [], [T, NOPE_TRAIT]]], False, False),
     ]
 
     def rs(label, payload, reduced=False, pairable=True):
